@@ -1,5 +1,6 @@
 import Driver.Proto
 import PdtVerif.Model.CtcPrefix
+import PdtVerif.Model.CtcFusion
 import PdtVerif.Spec.Ctc
 import Std.Data.HashMap
 /-! Driver for C05: runs the array model of `ctc_prefix_search_advance` / the module loop on
@@ -138,6 +139,18 @@ def massTable (V : Nat) (frames : List PdtVerif.Ctc.Frame) : List (List Nat × R
 
 def prefJ (p : List Nat) : Json := listJ natJ p
 
+/-- the harness's stateful LM (state = rolling hash of the consumed tokens), as a `CtcPrefix.LM`; only the
+state matters here: the scores travel as numbers -/
+def hashLM : LM Nat :=
+  { run := fun idx col h => ([], if idx = 0 then h else (h * 5 + col.getD (idx - 1) 0 + 1) % 1000003) }
+
+/-- the LM state of every slot before each call, by the model's routing (`routeStates` / `lmInNext`) along
+the model's own states and step outputs -/
+def lmStates : List State → List StepOut → List Nat → List (List Nat)
+  | b :: bs, o :: os, sts =>
+    sts :: lmStates bs os (routeStates 0 sts (lmInNext hashLM 0 b sts) o.src o.isNon)
+  | _, _, _ => []
+
 /-- One batch element. common: {fix, V, width, spec?}; element: {len, frames:[{ext,nonext,blank,sel?}],
 init?: state, ext_table?: per frame [[prefix,[row]]..], keeps?: per frame [prefix..]}. -/
 def c05Elem (fix : Bool) (V width : Nat) (wantSpec : Bool) (c : Json) : Except String Json := do
@@ -152,7 +165,14 @@ def c05Elem (fix : Bool) (V width : Nat) (wantSpec : Bool) (c : Json) : Except S
     | some (s, _) => s
     | none => st0
   let res := finish (widths.getLast?.getD width) final
+  let lmJ : Json := match fieldOpt c "lm_h0" with
+    | some j => match jsonToNat j with
+      | .ok h0 => listJ (listJ natJ)
+          (lmStates (st0 :: (steps.map (·.1)).dropLast) (steps.map (·.2)) [h0])
+      | .error _ => Json.null
+    | none => Json.null
   let modelJ := objJ [
+    ("lm_states", lmJ),
     ("result", objJ [("prefixes", listJ prefJ res.prefixes), ("lens", listJ natJ res.lens),
                      ("probs", listJ xrToJson res.probs)]),
     ("steps", Json.arr ((steps.zip widths).map (fun ((s, o), w) => stepJson V w s o)).toArray)]
